@@ -21,6 +21,7 @@ type c17Step struct {
 	Target string `json:"target"`
 	PW     string `json:"pw"`
 	Admin  bool   `json:"admin"`
+	SamePW bool   `json:"same_pw,omitempty"`
 }
 
 type c17Case struct {
@@ -35,6 +36,8 @@ var c17Users = []seedUser{
 	{Name: "root", PW: "a", Admin: true, PID: 1},
 	{Name: "alice", PW: "password", Admin: false, PID: 1},
 	{Name: "bob", PW: "zq9#Lm2$vX7@pR4!kD", Admin: false, PID: 1},
+	// a long, distinctive name: a password built from it is weak for this user and strong for everybody else
+	{Name: "zaphod.beeblebrox", PW: "b", Admin: false, PID: 1},
 }
 
 func genPolicyPW(t *rapid.T, user string) (string, string) {
@@ -47,7 +50,7 @@ func genPolicyPW(t *rapid.T, user string) (string, string) {
 	case "date":
 		return rapid.SampledFrom([]string{"1984", "01011990", "2020-12-31", "31.12.1999", "19991231"}).Draw(t, "w"), cls
 	case "username":
-		return rapid.SampledFrom([]string{user, user + "1", "whawty", "whawty123", strings.ToUpper(user), user + user}).Draw(t, "w"), cls
+		return rapid.SampledFrom([]string{user, user + "1", "whawty", "whawty123", strings.ToUpper(user), user + user, user + "-42", "zaphod.beeblebrox-42", "zaphod.beeblebrox"}).Draw(t, "w"), cls
 	case "l33t":
 		return rapid.SampledFrom([]string{"p@ssw0rd", "wh4wty", "P4$$w0rd!", "l3tm31n", "dr4g0n"}).Draw(t, "w"), cls
 	case "repeat":
@@ -87,8 +90,13 @@ func genC17(t *rapid.T) c17Case {
 	}
 	for i, n := 0, rapid.IntRange(1, 10).Draw(t, "nsteps"); i < n; i++ {
 		s := c17Step{Path: rapid.SampledFrom([]string{"store-add", "store-update", "api-add", "api-update-admin", "api-update-own", "api-update-oldpw", "store-init"}).Draw(t, "path"),
-			Target: rapid.SampledFrom([]string{"root", "alice", "bob", "carol", "dave"}).Draw(t, "target"), Admin: rapid.Bool().Draw(t, "admin")}
+			Target: rapid.SampledFrom([]string{"root", "alice", "bob", "carol", "dave", "zaphod.beeblebrox", "zaphod.beeblebrox"}).Draw(t, "target"), Admin: rapid.Bool().Draw(t, "admin")}
 		s.PW, _ = genPolicyPW(t, s.Target)
+		if i > 0 && rapid.IntRange(0, 2).Draw(t, "samepw") == 0 && c.Steps[i-1].PW != "" && c.Steps[i-1].Target != s.Target {
+			// the password of the previous request, now for another user: the verdict depends on the user name too
+			s.PW = c.Steps[i-1].PW
+			s.SamePW = true
+		}
 		c.Steps = append(c.Steps, s)
 	}
 	return c
@@ -132,7 +140,7 @@ func runC17(c c17Case) string {
 		return r.Session
 	}
 	adminName := func() string {
-		for _, n := range []string{"root", "alice", "bob", "carol", "dave"} {
+		for _, n := range []string{"root", "alice", "bob", "carol", "dave", "zaphod.beeblebrox"} {
 			if u, ok := m[n]; ok && u.admin {
 				return n
 			}
@@ -149,6 +157,11 @@ func runC17(c c17Case) string {
 			}
 		}
 		pass, val := refPolicy(c.Kind, c.Thr, pw, s.Target)
+		if s.SamePW && i > 0 {
+			if prev, _ := refPolicy(c.Kind, c.Thr, pw, c.Steps[i-1].Target); prev != pass {
+				vlib.Class("same-password-next-request-other-user-other-verdict")
+			}
+		}
 		_, exists := m[s.Target]
 		before := vlib.TakeSnap(e.root)
 		accepted, applicable, otherwiseOK := false, true, false
